@@ -313,8 +313,17 @@ def _call_model(fr, m, X, *args):
     ctx = fr.ctx
     rw = m.attrs['rowwise']
     ctx.events.append(('model_call', m.attrs.get('training'), ctx.ghost['grad_enabled']))
+    # the model is assumed row-wise IN EVALUATION MODE (a BatchNorm / Dropout layer in training mode mixes or
+    # randomises the rows): every module of the model must have been put into eval mode before the call.  Ghost
+    # state: `training` = the flag of the top module (what model.training reads), `sub_training` = some
+    # descendant is in training mode; model.eval() clears both.
+    if m.attrs.get('require_eval_nograd') or m.attrs.get('require_eval'):
+        isf = lambda x: True if x is False else (False if (x is True or x is None) else Not(x))
+        # predict (C03) promises evaluation mode: a genuine obligation.  Elsewhere it is the validity condition of the
+        # row-wise assumption: if it fails the proof does not apply (undecided), it is not a verdict on the property
+        ctx.oblige('model-call:eval-mode', And(isf(m.attrs.get('training')), isf(m.attrs.get('sub_training', False))),
+                   'ghost' if m.attrs.get('require_eval_nograd') else 'assumed-pattern')
     if m.attrs.get('require_eval_nograd'):
-        ctx.oblige('model-call:eval-mode', m.attrs.get('training') is False, 'ghost')
         ctx.oblige('model-call:grad-disabled', ctx.ghost['grad_enabled'] is False, 'ghost')
     ts = [X] + list(args)
     for t in ts:
@@ -342,6 +351,7 @@ def _model_to(fr, m, *a, **k):
 @L.method('model.eval')
 def _model_eval(fr, m):
     m.attrs['training'] = False
+    m.attrs['sub_training'] = False
     return m
 
 
@@ -499,6 +509,23 @@ def _nn_module_getattr(fr, mod, a):
 @L.lib('len:hookdict')
 def _len_hookdict(fr, d):
     return d.attrs['module'].attrs['ghost'][d.attrs['key']]
+
+
+@L.lib('getattr:model')
+def _model_getattr(fr, m, a):
+    if a == 'training':
+        return m.attrs.get('training')
+    return NotImplemented
+
+
+@L.method('model.train')
+def _model_train(fr, m, mode=True):
+    md = O.simp(mode)
+    if md is True or md is False:
+        m.attrs['training'] = md
+        m.attrs['sub_training'] = md
+        return m
+    raise Unsupported("model.train with a symbolic mode")
 
 
 @L.method('model.parameters')
